@@ -496,8 +496,9 @@ def blocks_equal(real, model, exact):
 
 class C20(Spec):
     pid = "C20"
-    lean_targets = ("Earverif.Props.C20", "Earverif.Proofs.C20FloatMargin", "c20driver")
-    # Proofs/C20FloatMargin.lean imports Props/C20.lean and adds the Mathlib-based margin theorem
+    lean_targets = ("Earverif.Props.C20", "Earverif.Proofs.C20Driver", "Earverif.Proofs.C20FloatMargin", "c20driver")
+    # Proofs/C20FloatMargin.lean imports Props/C20.lean and Proofs/C20Driver.lean (core Lean: runRG_const, the link to
+    # the driver's function) and adds the Mathlib-based margin / tie / five-decimal theorems
     props_module = "Earverif.Proofs.C20FloatMargin"
     theorems = tuple(
         "Earverif.TrackSpec." + t
@@ -520,6 +521,11 @@ class C20(Spec):
             "processor_eq_meaningStrict", "stepG_eq", "runSpecF_eq", "runMultiSpecF_eq",
             "processorF_eq_meaningStrict", "multi_processorF_eq_meaning", "float_delay_counterexample",
             "delaySamplesF_eq_of_margin", "floatExact_of_margin",
+            # Proofs/C20Driver.lean: the function the driver executes (runRG delaySamplesF) is the theorems' runG / runSpecF
+            "runRG_const", "runSpecF_eq_driver", "driver_eq_meaningStrict",
+            # outside the margin theorem: no rounding anywhere, delay 0, exact half samples; five-decimal delays
+            "delaySamplesF_eq_of_exact", "delaySamplesF_zero", "delaySamplesF_tie",
+            "delaySamplesF_decimal_nontie", "five_decimal_delay_exact", "floatExact_of_five_decimal",
         )
     )
     trusted_base = (
@@ -542,7 +548,9 @@ class C20(Spec):
         "'nearest sample': an exact half sample rounds to the earlier sample, ceil(x - 1/2), as the code computes it",
         "processorF_eq_meaningStrict needs Spec.floatExact: every coefficient delay converts to the same number of "
         "samples in binary64 as in exact arithmetic (true whenever fs*ms/1000 is further than a relative 2^-50 from "
-        "every half-integer: delaySamplesF_eq_of_margin); where it fails the code deviates from the property "
+        "every half-integer: delaySamplesF_eq_of_margin; also for delay 0, exact half samples with 500(2m+1) < 2^53 "
+        "and every five-decimal delay <= 10 s at 44.1/48/96 kHz: delaySamplesF_zero, delaySamplesF_tie, "
+        "five_decimal_delay_exact); where it fails the code deviates from the property "
         "(float_delay_counterexample; probed on the real code, classifier float-delay-near-tie)",
         "input of shape (n, nch): every frame has nch samples (Rect); meaningStrict is undefined otherwise",
         "matrix coefficient phase/gainVar/delayVar/phaseVar are not read by track_processor.py (rejected in "
@@ -689,14 +697,41 @@ class C20(Spec):
                 qs.append((fs, F(rng.uniform(-1500.0 / fs, 0))))
             else:
                 qs.append((fs, F(rng.randint(0, 64), 2 ** rng.randint(0, 8))))
+        # delays written with five decimals (k/10^5 ms, read as the nearest double) at 44.1/48/96 kHz, exact half
+        # samples among them (k = 3125 t at 48 kHz, 500000 t at 44.1 kHz) and delay 0:
+        # Earverif.TrackSpec.five_decimal_delay_exact / delaySamplesF_tie / delaySamplesF_zero say the code converts
+        # them to the nearest sample of the decimal number itself
+        dec = {}
+        for _ in range(40 if ctx.quick else 600):
+            fs = rng.choice([44100, 48000, 96000])
+            c = rng.random()
+            if c < 0.25:
+                kk = {48000: 3125, 44100: 500000, 96000: 3125}[fs] * rng.randint(0, 40)
+            elif c < 0.75:
+                # the five-decimal number next to an exact half sample
+                kk = max(0, (F(2 * rng.randint(0, 4000) + 1, 2) * 10 ** 8 / fs).__floor__() + rng.choice([0, 1]))
+            else:
+                kk = rng.randint(0, 10 ** rng.choice([3, 6, 9]))
+            dec[len(qs)] = kk
+            qs.append((fs, F(float(F(kk, 10 ** 5)))))
         outs = driver.run(["Z|%d %s" % (fs, rat(d)) for fs, d in qs])
-        for (fs, d), o in zip(qs, outs):
+        for qi, ((fs, d), o) in enumerate(zip(qs, outs)):
             p = tp._track_spec_processor(to_real(("X", None, d, ("D", 0))))
             try:
                 p.init_delay(fs)
                 real = p.delay.delaymem.shape[0]
             except AssertionError:
                 real = "AssertionError"
+            if qi in dec:
+                # direct predicate on the real init_delay, from the exact decimal (independent of the Lean model)
+                want = code_delay_samples(fs, F(dec[qi], 10 ** 5))
+                got5 = real
+                ctx.count("float-delay:five-decimal" + (":tie" if delay_class(fs, F(dec[qi], 10 ** 5)) == "tie(x.5)"
+                                                        else ":zero" if dec[qi] == 0 else ""))
+                if got5 != want:
+                    ctx.hit("five-decimal delay not converted to the nearest sample (five_decimal_delay_exact says it is)",
+                            {"sample_rate": fs, "delay_ms": "%d/100000" % dec[qi]},
+                            {"code_delay_samples": got5, "nearest_sample": want}, ["c20-five-decimal-delay"])
             try:
                 mf, me = (int(v) for v in o.split())
             except ValueError:
@@ -919,7 +954,15 @@ REGISTRY = dict(
     "(delaySamplesF); processorF_eq_meaningStrict / multi_processorF_eq_meaning prove the property for the "
     "processors run with that conversion for every spec whose delays are float-exact (Spec.floatExact, decidable), "
     "delaySamplesF_eq_of_margin / floatExact_of_margin prove float-exactness whenever fs*ms/1000 keeps a relative "
-    "distance 2^-50 from every half-integer (0 < fs < 2^53, 0 < ms, < 2^52 samples), and "
+    "distance 2^-50 from every half-integer (0 < fs < 2^53, 0 < ms, < 2^52 samples); the cases that theorem leaves "
+    "out are proved separately: delaySamplesF_zero (delay 0 -> 0 samples at every rate), delaySamplesF_tie (an exact "
+    "half sample fs*ms/1000 = m+1/2, m >= 0, 500(2m+1) < 2^53, is computed without any rounding and gives m, e.g. "
+    "0.03125 ms at 48 kHz -> 1), delaySamplesF_eq_of_exact (core Lean, four decidable conditions: no operation "
+    "rounds); five_decimal_delay_exact / floatExact_of_five_decimal prove that for fs in {44100, 48000, 96000} and "
+    "every delay k/10^5 ms with k <= 10^9 (<= 10 s), read as the nearest double, the code's conversion is the "
+    "nearest sample of that double AND of the decimal k/10^5 itself (general non-tie form for any fs with "
+    "fs*k <= 10^14: delaySamplesF_decimal_nontie), so the deviation below cannot arise from five-decimal delays at "
+    "those rates; and "
     "float_delay_counterexample proves the hypothesis cannot be dropped: at 48 kHz the delay 0.052083333333333336 ms "
     "(2.5000000000000001 samples) is delayed by 2 samples by the code, nearest sample 3. "
     "simplify_preserves_meaning / simplify_buildable (simplification changes neither the "
@@ -934,7 +977,12 @@ REGISTRY = dict(
     "integer input (+ partitions with empty blocks), directed multi-delay trees, trees with delays within a few ulp "
     "of a half sample, random deeper trees, MultiTrackProcessor, unsimplified processors, error cases and real "
     "output_channel_allocation calls are run through the real code and the Lean model (binary64 delay conversion) "
-    "and compared exactly (dyadic gains); init_delay is compared with delaySamplesF directly; meaningStrict is "
+    "and compared exactly (dyadic gains); the Lean function the driver runs for these cases, runRG delaySamplesF on "
+    "trackProcessor s / build s with one (rate, block) pair per call, is proved to be the theorems' runG / runSpecF "
+    "when the rate is constant (runRG_const, runSpecF_eq_driver) and the headline is restated on it "
+    "(driver_eq_meaningStrict); init_delay is compared with delaySamplesF directly (random, near-tie, negative, "
+    "five-decimal, exact-tie and zero delays; five-decimal delays at 44.1/48/96 kHz are also checked on the real "
+    "init_delay against the nearest sample of the exact decimal, tag c20-five-decimal-delay); meaningStrict is "
     "compared with a numpy reference of the literal meaning written from the property text; that reference and "
     "block-partition independence are searched on the real code alone with non-dyadic gains/delays (1e-12).",
     note="Trusted: Lean kernel; hand transliteration of track_processor.py / delay.Delay.process (one channel) / "
